@@ -656,3 +656,57 @@ func genChurn(prop string, seed uint64, run int, tier string, big bool) *Scenari
 	sc.Tasks = []TaskScript{{Name: "maker", Role: "client", Ops: mk}, {Name: "world0", Role: "world", Ops: w}}
 	return sc
 }
+
+// ---------------------------------------------------------------------------
+// C04, thorough tier: every sequence of length <= 4 over a 15-symbol alphabet
+// (Add/Remove of six core paths, WatchList, delete / recreate / re-point),
+// lag-free. Index i selects the sequence (mixed radix); nil when exhausted.
+
+var enumPaths = []string{"u/f", "u/d", "u/lf", "u/ld", "u/h", "u/missing"}
+
+const enumSymbols = 15
+
+func enumTotal() int {
+	n, p := 0, 1
+	for l := 1; l <= 4; l++ {
+		p *= enumSymbols
+		n += p
+	}
+	return n
+}
+
+func genAPIEnum(prop string, seed uint64, run int) *Scenario {
+	i := run
+	l, p := 1, enumSymbols
+	for i >= p {
+		i -= p
+		l++
+		p *= enumSymbols
+		if l > 4 {
+			return nil
+		}
+	}
+	sc := &Scenario{Prop: prop, Family: "api-enum", Seed: seed, Run: run}
+	sc.Cfg = Cfg{Policy: "fifo", MaxSteps: 20000, Lagfree: true, BatchMode: 2}
+	sc.Setup = append(apiSetup(), Op{K: OpNewWatcher, N: -1})
+	var ops []Op
+	for k := 0; k < l; k++ {
+		d := i % enumSymbols
+		i /= enumSymbols
+		switch {
+		case d < 6:
+			ops = append(ops, Op{K: OpAdd, P: enumPaths[d]})
+		case d < 12:
+			ops = append(ops, Op{K: OpRemove, P: enumPaths[d-6]})
+		case d == 12:
+			ops = append(ops, Op{K: OpWatchList})
+		case d == 13:
+			ops = append(ops, Op{K: OpUnlink, P: "u/f"}, Op{K: OpCreate, P: "u/f"})
+		default:
+			ops = append(ops, Op{K: OpUnlink, P: "u/lf"}, Op{K: OpSymlink, P: "u/lf", P2: "g"})
+		}
+	}
+	ops = append(ops, Op{K: OpWrite, P: "u/f", N: 1}, Op{K: OpWrite, P: "u/g", N: 1}, Op{K: OpCreate, P: "u/d/last"})
+	sc.Tasks = []TaskScript{{Name: "seq", Role: "client", Ops: ops}}
+	return sc
+}
